@@ -196,7 +196,7 @@ def run(ctx):
     importlib.import_module("id3file_tie").run_faults(ctx, want=("io", "short"))
     importlib.import_module("apefile_tie").run_faults(ctx, want=("io", "short"))
     # load as a program over the file object (Props/C06_<X>Load.lean): the real constructor on FaultFile vs the model
-    for name in ("asf_tie", "dsf_tie", "iff_tie"):
+    for name in ("asf_tie", "dsf_tie", "iff_tie", "ogginject_tie", "mp4file_tie", "id3file_tie", "apefile_tie", "flacload_tie"):
         importlib.import_module(name).run_load_faults(ctx)
 
 def search(ctx):
